@@ -222,6 +222,10 @@ def prop_identities(case):
             raise
         except Exception as e:  # noqa: BLE001  (degenerate / refused schemes are decided by the other sub-checks and by C09)
             raise Discard(f"scheme not optimisable: {type(e).__name__}")
+    if any(abs(float(result.data[d["label"]].attrs["dataset_scale"])) < 1e-6 for d in case["datasets"]):
+        # an optimiser step may drive a free dataset scale to (nearly) zero: the linear problem of every aligned index that dataset
+        # takes part in is then rank deficient, which is outside the statement of C01 (full column rank)
+        raise Discard("a dataset scale optimised to zero: rank-deficient linear problem")
     for d in case["datasets"]:
         lab = d["label"]
         ds = result.data[lab]
